@@ -7,6 +7,10 @@ A case is JSON-able:
   {"stream": s, "op": "seq", "ctx": wire dict, "ops": [{"op": …, "add": wire}…], "ruamel": bool}
       a SEQUENCE of operations on one Context (a step op with "add": the mapping is first put under the step's key,
       as a pipeline does with `in:`); every incoming mapping is inspected again after every later operation
+A container at a VALUE position of "ctx" / "add" may be wrapped as {"cls": tag, "of": <wire container>}: it is built as
+the class with that model tag (impl_c09._classes: set 1 = frozenset, list 2 = CommentedSeq, dict 2 = CommentedMap,
+dict 3 = OrderedDict, 3 / 4 = MyList / MyTuple / MySet / MyDict); the tree-level model sees the wire without the wrappers
+(`strip_cls`: it has no classes), the heap-level model the class tags.
 """
 from __future__ import annotations
 
@@ -14,7 +18,7 @@ from collections.abc import Mapping, Set
 
 from . import common
 from .common import canon, Opaque
-from .impl_c09 import (CASE_SECONDS, CaseTimeout, NotModelled, Snapshot, graph_to_cells, has_cycle, id_map,
+from .impl_c09 import (CASE_SECONDS, CaseTimeout, NotModelled, Snapshot, classes, graph_to_cells, has_cycle, id_map,
                        impl_graph, canon_wire, deep_equal, enc9, is_special,
                        py_brace_free, stable_repr, time_limit)
 
@@ -25,23 +29,63 @@ STEP_KEY = {'step-merge': 'contextMerge', 'step-default': 'defaults'}
 # wire -> python
 # ---------------------------------------------------------------------------------------------
 
-def dec(w, ruamel=False):
-    """common.dec, optionally building ruamel CommentedMap / CommentedSeq for dicts / lists."""
-    if not ruamel:
-        return common.dec(w)
-    from ruamel.yaml.comments import CommentedMap, CommentedSeq
+CLS_TAGS = {'list': (0, 2, 3), 'tuple': (0, 3), 'dict': (0, 2, 3, 4), 'set': (0, 1, 3)}
+
+
+def wire_kind(w):
+    """'list' | 'dict' | 'tuple' | 'set' for a wire container, else None."""
     if isinstance(w, list):
-        return CommentedSeq([dec(x, True) for x in w])
+        return 'list'
+    if isinstance(w, dict):
+        for key, kind in (('d', 'dict'), ('t', 'tuple'), ('set', 'set')):
+            if key in w:
+                return kind
+    return None
+
+
+def K(tag, w):
+    """the wire container `w` as an instance of the class with model tag `tag`"""
+    assert tag in CLS_TAGS[wire_kind(w)], (tag, w)
+    return {'cls': tag, 'of': w}
+
+
+def strip_cls(w):
+    """the wire value without class wrappers (what the class-less tree model is given)"""
+    if isinstance(w, list):
+        return [strip_cls(x) for x in w]
+    if isinstance(w, dict):
+        if 'cls' in w:
+            return strip_cls(w['of'])
+        if 'd' in w:
+            return {'d': [[strip_cls(k), strip_cls(v)] for k, v in w['d']]}
+        if 't' in w:
+            return {'t': [strip_cls(x) for x in w['t']]}
+        if 'jsonify' in w:
+            return {'jsonify': strip_cls(w['jsonify'])}
+    return w
+
+
+def dec(w, ruamel=False, cls=None):
+    """wire -> python. Unwrapped dicts / lists are plain (ruamel: CommentedMap / CommentedSeq); a container wrapped
+    as {"cls": tag, "of": …} is an instance of the class with that model tag."""
+    if isinstance(w, dict) and 'cls' in w:
+        return dec(w['of'], ruamel, classes()[wire_kind(w['of'])][w['cls']])
+    if isinstance(w, list):
+        if cls is None:
+            cls = classes()['list'][2] if ruamel else list
+        return cls([dec(x, ruamel) for x in w])
     if isinstance(w, dict):
         if 'd' in w:
-            return CommentedMap([(dec(k, True), dec(v, True)) for k, v in w['d']])
+            if cls is None:
+                cls = classes()['dict'][2] if ruamel else dict
+            return cls([(dec(k, ruamel), dec(v, ruamel)) for k, v in w['d']])
         if 't' in w:
-            return tuple(dec(x, True) for x in w['t'])
+            return (cls or tuple)([dec(x, ruamel) for x in w['t']])
         if 'set' in w:
-            return {dec(x, True) for x in w['set']}
+            return (cls or set)([dec(x, ruamel) for x in w['set']])
         if 'jsonify' in w:
             from pypyr.dsl import Jsonify
-            return Jsonify(dec(w['jsonify'], True))
+            return Jsonify(dec(w['jsonify'], ruamel))
     return common.dec(w)
 
 
@@ -104,6 +148,11 @@ def named_tree(add, before, fb, fa, depth=0):
             out[fk] = ('?',)
             continue
         cur = before.get(fk, _ABSENT) if isinstance(before, Mapping) else _ABSENT
+        if cur is not _ABSENT and not is_strlike(v):
+            for name, t in (('mapping', Mapping), ('list', list), ('tuple', tuple), ('set', Set)):
+                if isinstance(cur, t) and isinstance(v, t):
+                    COMBOS.append(f'{name}:{type(cur).__name__}<-{type(v).__name__}')
+                    break
         if not is_strlike(v) and isinstance(v, Mapping) and isinstance(cur, Mapping):
             out[fk] = ('d', named_tree(v, cur, fb, fa, depth + 1), v)
         else:
@@ -112,6 +161,29 @@ def named_tree(add, before, fb, fa, depth=0):
 
 
 _ABSENT = object()
+COMBOS = []            # same-mergeable-kind pairs met by the monitors (existing class <- incoming class), drained per case
+NAMED = []             # per operation run: the flat named paths (or None), drained per case
+
+
+def flat_named(nt, before, defaults, path=()):
+    """The named paths of an incoming mapping as the model's trace lists them: [[path of formatted keys, written?]…]
+    in the order of the incoming items, nested entries right after their parent. merge: every item is a write
+    (true) or a mapping x mapping descent (false); set_defaults: an existing key that is not descended into
+    contributes NO entry. None when the named tree is ambiguous somewhere ('?')."""
+    out = []
+    for fk, ent in nt.items():
+        if ent[0] == '?':
+            return None
+        p = path + (fk,)
+        if ent[0] == 'd':
+            sub = flat_named(ent[1], before[fk], defaults, p)
+            if sub is None:
+                return None
+            out.append([list(p), False])
+            out += sub
+        elif not (defaults and isinstance(before, Mapping) and fk in before):
+            out.append([list(p), True])
+    return out
 
 
 def has_unknown(nt):
@@ -209,11 +281,14 @@ def table_monitor(before_copy, after, nt, path, fails, fb, fa):
                 fails.append(('table', f'{fmt_path(p)}: incoming {stable_repr(v)[:80]} must overwrite with its '
                                        f'formatted value {stable_repr(fv)[:80]}, found {stable_repr(new)[:80]}'))
         elif isinstance(v, (list, tuple)):
+            # the property speaks of the members, not of the class of the result (a tuple subclass + a tuple is a
+            # plain tuple in CPython): members compared as plain sequences
             n = len(old)
-            if type(new) is not type(old) or len(new) != n + len(v) or not deep_equal(type(old)(new[:n]), old):
+            base = list if isinstance(v, list) else tuple
+            if not isinstance(new, base) or len(new) != n + len(v) or not deep_equal(list(new)[:n], list(old)):
                 fails.append(('table-extend', f'{fmt_path(p)}: existing members must come first and stay: old '
                                               f'{stable_repr(old)[:80]}, new {stable_repr(new)[:80]}'))
-            elif stable and not deep_equal(type(fv)(new[n:]), fv):
+            elif stable and not deep_equal(list(new)[n:], list(fv)):
                 fails.append(('table-extend', f'{fmt_path(p)}: incoming members must follow the existing ones: '
                                               f'{stable_repr(new)[:80]}'))
         elif isinstance(v, Set):
@@ -319,6 +394,8 @@ def _run_impl(case):
     from pypyr.context import Context
     ops = case_ops(case)
     ruamel = case.get('ruamel', False)
+    del COMBOS[:]
+    del NAMED[:]
     ctx = Context(dec(case['ctx']))
     # every incoming mapping is an object that exists before the sequence starts and is looked at again after
     # EVERY later operation ("leave the incoming mapping itself unmodified" has no time limit)
@@ -380,6 +457,7 @@ def _run_impl(case):
             break
     if obs is not None:
         obs['heap'] = heap if 'skip' in heap else {k: heap[k] for k in ('cells', 'root', 'ops')}
+        obs['combos'] = list(COMBOS)
         return obs, fails
     after = dict(ctx)
     try:
@@ -394,7 +472,13 @@ def _run_impl(case):
             heap = {'cells': heap['cells'], 'root': heap['root'], 'ops': heap['ops'], 'graph': g}
         except RecursionError:
             heap = {'skip': 'too-deep'}
-    return {'ok': w, 'heap': heap}, fails
+    obs = {'ok': w, 'heap': heap, 'combos': list(COMBOS)}
+    if len(ops) == 1 and len(NAMED) == 1 and NAMED[0] is not None and ops[0]['op'] in ('merge', 'defaults'):
+        try:
+            obs['named'] = [[[canon_wire(enc9(k)) for k in p], b] for p, b in NAMED[0]]
+        except Exception:
+            pass
+    return obs, fails
 
 
 def call_op(ctx, op, add):
@@ -437,6 +521,8 @@ def run_one(ctx, op, add):
         try:
             fa = Formatter(Snapshot(after).copy)
             nt = named_tree(add, before_copy.copy, fb, fa)
+            if err is None:
+                NAMED.append(flat_named(nt, before_copy.copy, op in ('defaults', 'step-default')))
             if op in ('merge', 'step-merge'):
                 frame_monitor(before_copy.copy, live_ids, after, nt, [], fails)
                 if err is None:
@@ -611,7 +697,7 @@ def directed_cases():
         for repl in (5, 'text', None, [1], {'sic': 's'}):
             out.append({'stream': f'step:{op}:names-own-key', 'op': op,
                         'ctx': {'d': base + [[key, D(['a', 1], [key, repl])]]}})
-    return out + format_once_cases() + sequence_cases()
+    return out + format_once_cases() + sequence_cases() + class_cases()
 
 
 ACC_INITS = {
@@ -717,6 +803,87 @@ def format_once_cases():
                 out.append({'stream': f'fmt-once:{name}:seq:{op}', 'op': 'seq', 'ctx': {'d': list(base)},
                             'ruamel': ruamel, 'ops': [{'op': op, 'add': inc}, {'op': op, 'add': inc}]})
     return out
+
+
+CLASS_PAYLOAD = {
+    # kind: (existing, incoming, empty) — the incoming one has an expression and, for sets, a member already present
+    'list': (['old0', 1], ['new0', '{e}', D(['k', '{e}'])], []),
+    'tuple': (T('old0', 1), T('new0', '{e}'), T()),
+    'set': (S('old0', 1), S('new0', 'old0', '{e}'), S()),
+    'dict': (D(['m1', 'old-m1'], ['m2', D(['deep', 1])], ['keep', [1]]),
+             D(['m1', 'new-{e}'], ['m3', '{e}'], ['m2', D(['deep2', '{e}'])], ['keep', ['{e}']]), D()),
+}
+
+
+def class_cases():
+    """`are_all_this_type` is isinstance: every combination of the numbered classes of one kind on BOTH sides
+    (set: set / frozenset / MySet; tuple: tuple / MyTuple; list: list / CommentedSeq / MyList; dict: dict /
+    CommentedMap / OrderedDict / MyDict) takes the mergeable branch — with both sides non-empty, the existing one
+    empty, the incoming one empty (CPython's tuple shortcut, empty-frozenset singleton); kinds that differ stay
+    an overwrite whatever the classes."""
+    out = []
+    n = 0
+    for kind, tags in CLS_TAGS.items():
+        old, new, empty = CLASS_PAYLOAD[kind]
+        for to in tags:
+            for tn in tags:
+                for variant, (o, v) in (('both', (old, new)), ('old-empty', (empty, new)), ('new-empty', (old, empty))):
+                    for op, depth in (('merge', 1), ('merge', 2), ('defaults', 1), ('step-merge', 1)):
+                        if (variant != 'both' and (op, depth) != ('merge', 1)) or (op == 'defaults' and kind != 'dict' and to != tn):
+                            continue
+                        n += 1
+                        sib = [['sib', [1, [2]]], ['sib-none', None]]
+                        ctx = nest(depth, 't', K(to, o), sib)
+                        ctx['d'] += [['e', 'E']]
+                        add = nest(depth, 't', K(tn, v), [['sib-new', 'added {e}']])
+                        if n % 4 == 0:
+                            add = K(CLS_TAGS['dict'][n // 4 % 4], add)        # the incoming mapping itself a subclass
+                        case = {'stream': f'classes:{op}:{kind}:{to}x{tn}:{variant}:d{depth}', 'ruamel': n % 5 == 0}
+                        if op == 'step-merge':
+                            case.update(op='seq', ctx=ctx, ops=[{'op': op, 'add': add}])
+                        else:
+                            case.update(op=op, ctx=ctx, add=add)
+                        out.append(case)
+    # kinds differ: overwrite with the formatted value, whatever the classes
+    clash = [(K(1, S('a')), K(3, T('b', '{e}'))), (K(3, ['a']), K(3, T('b'))), (K(3, T('a')), K(2, ['b', '{e}'])),
+             (K(3, D(['a', 1])), K(3, ['b'])), (K(3, S('a')), K(4, D(['b', '{e}']))), (K(1, S('a')), K(2, ['{e}'])),
+             (K(2, D(['a', 1])), K(1, S('b')))]
+    for i, (o, v) in enumerate(clash):
+        for op in ('merge', 'defaults'):
+            out.append({'stream': f'classes:{op}:clash{i}', 'op': op, 'ctx': D(['t', o], ['e', 'E'], ['sib', 1]),
+                        'add': D(['t', v], ['new', v])})
+    return out
+
+
+def sprinkle(w, rng, p=0.3):
+    """Random class wrappers on the containers at value positions of a wire value (dict keys, set members and the
+    payload of special tags stay as they are)."""
+    kind = wire_kind(w)
+    if kind is None:
+        return w
+    if kind == 'list':
+        inner = [sprinkle(x, rng, p) for x in w]
+    elif kind == 'dict':
+        inner = {'d': [[k, sprinkle(v, rng, p)] for k, v in w['d']]}
+    elif kind == 'tuple':
+        inner = {'t': [sprinkle(x, rng, p) for x in w['t']]}
+    else:
+        inner = w
+    if rng.random() < p:
+        return {'cls': rng.choice(CLS_TAGS[kind]), 'of': inner}
+    return inner
+
+
+def sprinkle_case(case, rng):
+    """class wrappers over a whole case: the values of the context (the root is the Context), every incoming mapping"""
+    case['ctx'] = {'d': [[k, sprinkle(v, rng)] for k, v in case['ctx']['d']]}
+    if 'add' in case:
+        case['add'] = sprinkle(case['add'], rng)
+    for o in case.get('ops', []):
+        if 'add' in o:
+            o['add'] = sprinkle(o['add'], rng)
+    case['stream'] += '-classes'
+    return case
 
 
 def alias_cases():
@@ -928,7 +1095,8 @@ def random_case(rng):
             add2 = incoming_for(base, 3, True)
             ops.append({'op': op2, 'add': add2})
             prev = add2
-        return {'stream': 'random-seq', 'op': 'seq', 'ruamel': rng.random() < 0.25, 'ctx': ctx, 'ops': ops}
+        case = {'stream': 'random-seq', 'op': 'seq', 'ruamel': rng.random() < 0.25, 'ctx': ctx, 'ops': ops}
+        return sprinkle_case(case, rng) if rng.random() < 0.4 else case
     case = {'stream': 'random', 'op': op, 'ruamel': rng.random() < 0.25}
     if op in STEP_KEY:
         key = STEP_KEY[op]
@@ -936,4 +1104,4 @@ def random_case(rng):
         case['ctx'] = ctx
     else:
         case['ctx'], case['add'] = ctx, add
-    return case
+    return sprinkle_case(case, rng) if rng.random() < 0.4 else case
